@@ -1905,6 +1905,10 @@ func (e *Engine) siteAsserts(fr *Frame, st *State, instr ssa.Instruction) {
 		fr.siteDone[key] = true
 		fr.siteHits++
 		env := e.loopEnv(fr, st)
+		if sa.Hint {
+			e.applyHint(env, sa.Cl, st.pc)
+			continue
+		}
 		t, err := e.tryEvalBool(env, sa.Cl.Expr)
 		if err != nil {
 			panic(fmt.Sprintf("contract error: assert_at %q: %v", sa.Text, err))
